@@ -762,6 +762,13 @@ func c18RunScript(ros bool, sched []c18Sched, evs []string) (groups []*c18Group,
 	d := &c18Driver{r: r, w: w}
 	startCtx := context.WithValue(context.Background(), c18ParentKey{}, "start")
 	shutCtx := context.WithValue(context.Background(), c18ParentKey{}, "shutdown")
+	if len(evs)%2 == 1 {
+		// every other scenario shuts down under a deadline (as SignalHandler does): whatever the
+		// context given to Shutdown looks like, refreshes run under a context made by the constructor
+		var cancelShut context.CancelFunc
+		shutCtx, cancelShut = context.WithTimeout(shutCtx, 10*time.Minute)
+		defer cancelShut()
+	}
 	_ = w.Start(startCtx)
 	d.settleLoop()
 
